@@ -275,7 +275,37 @@ def n_init(recipe, sh, rng):
     return None
 
 
-NEAR = {"init-tasks": n_init, "swap": n_swap, "rename-key": n_rename_key, "move-between": n_move_between, "sibling": n_sibling, "enum": n_enum, "scalar": n_scalar, "add-pre": n_pre}
+def n_regroup(recipe, sh, rng):
+    """Regroup a nested list: merge two neighbouring inner lists or split one ([[1],[2]] <-> [[1,2]])."""
+    c = []
+    for s in hashed_sites(recipe, sh):
+        if s[2] == "Node":
+            v = kw(s, "grid")
+            if v and (len(v) >= 2 or any(len(x) >= 2 for x in v)):
+                c.append(s[1])
+    if not c:
+        return None
+    nid = rng.choice(c)
+    r = copy.deepcopy(recipe)
+    for s in new_steps(r):
+        if s[1] == nid:
+            g = kw(s, "grid")
+            if len(g) >= 2 and rng.random() < 0.5:
+                i = rng.randrange(len(g) - 1)
+                g[i : i + 2] = [g[i] + g[i + 1]]
+            else:
+                cands = [i for i, x in enumerate(g) if len(x) >= 2]
+                if not cands:
+                    i = rng.randrange(len(g) - 1)
+                    g[i : i + 2] = [g[i] + g[i + 1]]
+                else:
+                    i = rng.choice(cands)
+                    k = rng.randint(1, len(g[i]) - 1)
+                    g[i : i + 1] = [g[i][:k], g[i][k:]]
+    return r, nid
+
+
+NEAR = {"regroup": n_regroup, "init-tasks": n_init, "swap": n_swap, "rename-key": n_rename_key, "move-between": n_move_between, "sibling": n_sibling, "enum": n_enum, "scalar": n_scalar, "add-pre": n_pre}
 
 
 # ---------------------------------------------------------------- monitors
